@@ -75,7 +75,7 @@ Proof.
       * apply owns_snoc; [apply Pow; exact He|]. intros tx c0 s0 t0 Ho Hs.
         inversion Ho as [[E1 E2 E3 E4]].
         exfalso. apply (find_entry_none _ _ F4 e He). rewrite E3. symmetry. exact Hs.
-      * subst e. exists (past ++ tr), (k_ntx k), (k_now k), []. cbn [new_entry e_cmd e_seq].
+      * subst e. exists (past ++ tr), (k_ntx k), (k_now k + dur (cf_iter cf) (c_id c)), []. cbn [new_entry e_cmd e_seq].
         split; [reflexivity|]. split.
         -- intros tx2 c2 s2 t2 Hin. split; [apply (Ptx _ _ _ _ Hin)|].
            intros Heq. subst c2. apply (Pun (c_id c) (or_introl eq_refl) tx2 s2 t2 Hin).
